@@ -401,10 +401,8 @@ def shiftbound_cases():
     for c in SHIFT_COUNTS:
         lay = {"base": 0o1000, "link": None, "pad": 2, "consts": {"cb0": c, "cb1": -c, "ca0": c, "ca1": -c}}
         back = (lambda t: X.observe_wrap(B("BShr", ("grp", "paren", t), dec(65530)), 0)) if c <= X.MAX_SHIFT else (lambda t: t)
-        # An address times 2^c with c > 4096 is reported as 'recursive-definition' by deferred.py (MAX_COEFFICIENT_BITS,
-        # a heuristic against rings of definitions): reported to the coordinator as a defect candidate, input
-        # 'lb0: .dword (lb0 << 5000.) >> 4998.'; until that is decided the address operand is used with refused counts only.
-        for a in (dec(1), dec(-3), dec(0)) + ((("sym", "lb0"),) if c > X.MAX_SHIFT else ()):
+        # (an address times 2^c with c > 4096 used to be reported as 'recursive-definition': fixed in /repo d4c0ccc)
+        for a in (dec(1), dec(-3), dec(0), ("sym", "lb0")):
             for pos, neg in ((dec(c), dec(-c)), (("sym", "cb0"), ("sym", "cb1")), (("sym", "ca0"), ("sym", "ca1"))):
                 out.append(("shiftbound", back(B("BShl", a, pos)), lay, 1))
                 out.append(("shiftbound", back(B("BLsh", a, pos)), lay, 1))
@@ -416,14 +414,15 @@ def shiftbound_cases():
             out.append(("shiftbound", B("BAdd", ("grp", "paren", B("BDiv", one, dec(0))), ("grp", "paren", B("BShl", one, dec(c)))), lay, 2))
             out.append(("shiftbound", B("BAdd", ("grp", "paren", B("BShl", one, dec(c))), ("grp", "paren", B("BDiv", one, dec(0)))), lay, 2))
             out.append(("shiftbound", B("BMul", ("grp", "angle", B("BLsh", ("sym", "la0"), ("sym", "ca0"))), dec(0)), lay, 2))
-    # an address shifted by a count below that heuristic's limit
-    lay = {"base": 0o1000, "link": None, "pad": 2, "consts": {"cb0": 4000, "cb1": -4000, "ca0": 4000, "ca1": -4000}}
-    for a in (("sym", "lb0"), ("sym", "la0"), ("dot",)):
-        for pos, neg in ((dec(4000), dec(-4000)), (("sym", "cb0"), ("sym", "cb1")), (("sym", "ca0"), ("sym", "ca1"))):
-            back = lambda t: X.observe_wrap(B("BShr", ("grp", "paren", t), dec(3990)), 0)
-            out.append(("shiftbound", back(B("BShl", a, pos)), lay, 1))
-            out.append(("shiftbound", back(B("BLsh", a, pos)), lay, 1))
-            out.append(("shiftbound", B("BShr", a, neg), lay, 1))
+    # an address shifted by counts around the former coefficient limit of deferred.py (4096 bits)
+    for k in (4000, 4097, 5000, 40000):
+        lay = {"base": 0o1000, "link": None, "pad": 2, "consts": {"cb0": k, "cb1": -k, "ca0": k, "ca1": -k}}
+        for a in (("sym", "lb0"), ("sym", "la0"), ("dot",)):
+            for pos, neg in ((dec(k), dec(-k)), (("sym", "cb0"), ("sym", "cb1")), (("sym", "ca0"), ("sym", "ca1"))):
+                back = lambda t, k=k: X.observe_wrap(B("BShr", ("grp", "paren", t), dec(k - 10)), 0)
+                out.append(("shiftbound", back(B("BShl", a, pos)), lay, 1))
+                out.append(("shiftbound", back(B("BLsh", a, pos)), lay, 1))
+                out.append(("shiftbound", B("BShr", a, neg), lay, 1))
     lay = {"base": 0o1000, "link": None, "pad": 2, "consts": {"cb0": 40, "cb1": 16, "ca0": 64, "ca1": 17}, "huge": True}
     one = dec(1)
     for inner in (B("BLsh", one, ("sym", "cb0")), B("BShl", one, ("sym", "ca0")), B("BShl", one, ("sym", "ca1")), B("BAdd", B("BShl", one, ("sym", "cb1")), one)):
